@@ -800,6 +800,43 @@ def pure_ext(it, dotted, args, kw, n):
     return None
 
 
+class StructObj:
+    """struct.Struct(fmt): pack / unpack / size by constant folding; unpack of a symbolic byte string gives one opaque value per item"""
+    not_none = True
+
+    def __init__(self, fmt):
+        import struct as _struct
+        self.fmt = fmt
+        self.st = _struct.Struct(fmt)
+
+    def abs_key(self):
+        return ('struct', self.fmt)
+
+    def abs_attr(self, it, a, n):
+        if a == 'size':
+            return K(self.st.size)
+        if a == 'format':
+            return K(self.fmt)
+        if a in ('pack', 'unpack', 'unpack_from', 'iter_unpack'):
+            return Native(lambda it_, args, kw, node, _a=a: ext_call(it_, 'struct.' + _a, [K(self.fmt)] + list(args), kw, node), 'Struct.' + a)
+        return None
+
+
+def struct_items(fmt):
+    """[(code, count)] of a struct format with an explicit byte order and standard sizes; None when not of that form"""
+    import re as _re
+    if not fmt or fmt[0] not in '<>!=':
+        return None
+    out = []
+    for cnt, code in _re.findall(r'(\d*)([xcbB?hHiIlLqQs])', fmt[1:]):
+        c = int(cnt) if cnt else 1
+        if code == 's':
+            out.append(('s', c))
+        else:
+            out += [(code, 1)] * c
+    return out
+
+
 class NamedTupleClass:
     """collections.namedtuple(...) / typing.NamedTuple class: instances are tuples (ListV tup=True) with field names"""
     not_none = True
@@ -844,9 +881,16 @@ def ext_call(it, dotted, args, kw, n):
     last = dotted.split('.')[-1]
     if dotted in ('hashlib.sha256', 'hashlib.sha512', 'hashlib.sha1', 'hashlib.md5'):
         return Hasher(last, args[0] if args else None)
+    if dotted == 'struct.Struct' and args and isinstance(args[0], K) and isinstance(args[0].v, (str, bytes)):
+        return StructObj(args[0].v if isinstance(args[0].v, str) else args[0].v.decode())
     r = pure_ext(it, dotted, args, kw, n)
     if r is not None:
         return r
+    if dotted in ('struct.unpack', 'struct.unpack_from') and len(args) >= 2 and isinstance(args[0], K) and not isinstance(args[1], K):
+        items = struct_items(args[0].v if isinstance(args[0].v, str) else args[0].v.decode())
+        if items is not None:
+            vals = [x for x in items if x[0] != 'x']
+            return ListV([Sym(f'struct[{i}:{c}]', key=('struct', repr(it.vkey(args[1])), args[0].v, i), not_none=True) for i, (c, _) in enumerate(vals)], tup=True)
     if last == 'int2ba' and 'bitarray' in dotted:
         value = args[0]
         length = args[1] if len(args) > 1 else kw.get('length')
@@ -1269,7 +1313,7 @@ def val_method(it, v, name, args, kw, node):
             dflt = args[1] if len(args) > 1 else K(None)
             if isinstance(args[0], K) and all(not isinstance(o, tuple) for o in v.d):
                 return dflt
-            if getattr(it, 'INJECTIVE_KEYS', False):
+            if getattr(it, 'INJECTIVE_KEYS', True):
                 return dflt         # distinct symbolic keys denote distinct values (collision-free hashing assumption of the caller)
             return Term('dict.get', v, args[0])
         if name == 'items':
@@ -1642,6 +1686,9 @@ def builtin(it, name, args, kw, n):
                 return it.invoke(FuncRef(m, c.module, c), [args[0]] + (list(args[1:]) if dn == '__format__' else []), {})
     if name == 'memoryview' and args:
         return args[0]
+    if name == 'slice' and args:
+        a3 = ([K(None)] + list(args) if len(args) == 1 else list(args)) + [K(None)] * 2
+        return SliceV(a3[0], a3[1], a3[2])
     if name in ('map', 'filter') and len(args) >= 2:
         lists = [it.iterate(a) for a in args[1:]]
         if any(l is None for l in lists):
